@@ -468,6 +468,38 @@ def sql_from(f):
     return f"{sql_from(l)} {kw} {sql_from(r)} on {sql_expr(on)}"
 
 
+def derived_items(f, acc):
+    if f[0] == "sub":
+        acc.append(f)
+    elif f[0] == "join":
+        derived_items(f[2], acc)
+        derived_items(f[3], acc)
+
+
+def sql_query_cte(q):
+    """The same query with its derived tables hoisted into a WITH clause (each CTE is referenced once:
+    a CTE referenced twice is the recorded finding Q12)."""
+    items = []
+    derived_items(q["frm"], items)
+    if not items:
+        return sql_query(q)
+    names = {id(it): f"w{k + 1}" for k, it in enumerate(items)}
+
+    def frm(f):
+        if f[0] == "t":
+            return f"{f[1]} as {f[2]}"
+        if f[0] == "sub":
+            return f"{names[id(f)]} as {f[2]}"
+        _, jt, l, r, on = f
+        if jt == "cross":
+            return f"{frm(l)} cross join {frm(r)}"
+        kw = {"inner": "join", "left": "left join", "right": "right join", "full": "full join"}[jt]
+        return f"{frm(l)} {kw} {frm(r)} on {sql_expr(on)}"
+    body = sql_query(dict(q, frm=("t", "__FROM__", "__F__")))
+    body = body.replace("__FROM__ as __F__", frm(q["frm"]))
+    return "with " + ", ".join(f"{names[id(it)]} as ({sql_query(it[1])})" for it in items) + " " + body
+
+
 def sql_query(q):
     s = "select " + ("distinct " if q["dist"] else "")
     s += ", ".join(f"{sql_expr(e)} as {a}" for e, a in q["sel"])
